@@ -19,7 +19,7 @@ func init() { Register(c06{}) }
 func (c06) ID() string    { return "C06" }
 func (c06) Level() string { return "exploration" }
 func (c06) Rule() string {
-	return "case = one seeded Add/Write/Close history (batch sizes from the grammar {0,1,page-1,page,page+1,2page,2page+1,3page+2,random}, empty Writes in every position, 0..2page records pending at Close) x page size 1..8 (sometimes 100) x codec x shape, executed fault-free on the sim disk and compared with the list-of-batches model (independent framing parse + read-back). Non-trivial = the history has an empty Write, or records pending at Close, or a batch >= page size (page chain), or >= 2 row groups. Distinct = distinct canonical strings shape|page|codec|A^n W ... C combined with the digest of the record values."
+	return "case = one Add/Write/Close history: the first run indices sweep every sequence over {Add,Write} of length 0..6 x page 1..3 x codec x shape, the rest are seeded (batch sizes from the grammar {0,1,page-1,page,page+1,2page,2page+1,3page+2,random}, empty Writes in every position, 0..2page records pending at Close) x page size 1..8 (sometimes 100) x codec x shape, executed fault-free on the sim disk and compared with the list-of-batches model (independent framing parse + read-back). Non-trivial = the history has an empty Write, or records pending at Close, or a batch >= page size (page chain), or >= 2 row groups. Distinct = distinct canonical strings shape|page|codec|A^n W ... C combined with the digest of the record values."
 }
 func (c06) Assumptions() []string {
 	return []string{
@@ -29,7 +29,7 @@ func (c06) Assumptions() []string {
 	}
 }
 func (c06) Probes() []string {
-	return []string{"probe/empty-write-first", "probe/empty-write-between", "probe/empty-write-consecutive", "probe/exact-multiple-then-empty", "probe/pending-with-batches", "probe/pending-no-batches", "probe/chain>=3", "probe/no-batch-at-all", "probe/row-groups>=3"}
+	return []string{"probe/empty-write-first", "probe/empty-write-between", "probe/empty-write-consecutive", "probe/exact-multiple-then-empty", "probe/pending-with-batches", "probe/pending-no-batches", "probe/chain>=3", "probe/no-batch-at-all", "probe/row-groups>=3", "sweep/short-histories"}
 }
 func (c06) Runs(tier string) int {
 	if tier == "thorough" {
@@ -48,9 +48,51 @@ func c06Opts(tier string) core.HistOpts {
 	return o
 }
 
+// The first sweepRuns run indices are a systematic sweep of all short
+// histories (every sequence over {Add, Write} of length 0..6, then Close) x
+// page size 1..3 x codec x shape, with seeded record values: most history
+// defects need three or fewer operations, so the sampled search is seeded with
+// all of them. Everything after is drawn from the batch grammar.
+const sweepLen = 6
+
+func sweepRuns() int { return ((1 << (sweepLen + 1)) - 1) * 3 * 3 * len(allShapes) }
+
+func sweepHistory(idx int, r *core.Rng) *core.WriterSpec {
+	nh := (1 << (sweepLen + 1)) - 1
+	h := idx % nh
+	idx /= nh
+	w := &core.WriterSpec{Page: 1 + idx%3}
+	idx /= 3
+	w.Codec = core.Codecs[idx%3]
+	idx /= 3
+	w.Shape = allShapes[idx%len(allShapes)]
+	// h -> (length, bits)
+	l := 0
+	for h >= 1<<uint(l) {
+		h -= 1 << uint(l)
+		l++
+	}
+	sh := core.GetShape(w.Shape)
+	for i := 0; i < l; i++ {
+		if h>>uint(i)&1 == 1 {
+			w.Ops = append(w.Ops, core.WriteOp())
+		} else {
+			w.Ops = append(w.Ops, core.AddOp(core.GenRec(r, sh.Type, core.Benign)))
+		}
+	}
+	w.Ops = append(w.Ops, core.CloseOp())
+	return w
+}
+
 func (p c06) Run(runseed uint64, tier string, acc *Acc) []*core.Violation {
 	r := core.NewRng(runseed)
-	w := core.GenHistory(r, c06Opts(tier))
+	var w *core.WriterSpec
+	if acc.Index < sweepRuns() {
+		w = sweepHistory(acc.Index, r)
+		acc.Inc("sweep/short-histories")
+	} else {
+		w = core.GenHistory(r, c06Opts(tier))
+	}
 	acc.Runs++
 	c := &core.Case{Prop: "C06", Seed: runseed, W: w}
 	v, steps, digest := p.check(c)
